@@ -42,33 +42,23 @@ theorem ops_bit_exact (nd : Node) (h : LayerOK nd) (e : Rat) (pin pw : List Int)
       = numWeights nd e * positions nd * (pw.getD kw 0 : Rat) * (pin.getD ki 0 : Rat) := by
   rw [layerCost_onehot _ _ _ _ _ _ hki hkw, opsBit_shown nd h, numWeights_eq]; ring
 
-/-- **Whole network, per-layer search**: the `params_bit` cost `MPS.get_cost` returns in eval / hard
-mode is `Σ_layers #weights × selected weight bits` (weights counted on the alive input width the
-calculators deliver), for every program and every coefficient assignment. -/
+/-- **Whole network, per-layer search, `params_bit`** (a *shared* specification: every layer module
+is charged once, however often it is invoked): the cost `MPS.get_cost` returns in eval / hard mode is
+`Σ_layers #weights × selected weight bits` (weights counted on the alive input width the calculators
+deliver), for every program and every coefficient assignment. -/
 theorem params_bit_net_exact (p : Prog) (c : Cfg) (α : QId → List Rat)
-    (hl : ∀ i ∈ layerIdxs p, LayerOK (p.nd i))
+    (hl : ∀ i ∈ sharedIdxs p, LayerOK (p.nd i))
     (hn : ∀ q, (α q).length = (precOf p c q).length ∧ α q ≠ []) :
-    netCost paramsBit p c (hardSampled α)
-      = ratSum ((layerIdxs p).map fun i =>
+    netCostShared paramsBit p c (hardSampled α)
+      = ratSum ((sharedIdxs p).map fun i =>
           numWeights (p.nd i) (effIn p (outEffOf p c (hardSampled α)) i)
-            * ((planOf p c α (.layer i)).wS.getD default).bits) := by
-  unfold netCost
-  congr 1
-  apply List.map_congr_left
-  intro i hi
-  have hq := hn (inQ p (.layer i))
-  have hw := hn (wQ p i)
-  have hki : argmax (α (inQ p (.layer i))) < (precOf p c (inQ p (.layer i))).length := by
-    rw [← hq.1]; exact argmax_lt _ hq.2
-  have hkw : argmax (α (wQ p i)) < (precOf p c (wQ p i)).length := by
-    rw [← hw.1]; exact argmax_lt _ hw.2
-  have := params_bit_exact (p.nd i) (hl i hi) (effIn p (outEffOf p c (hardSampled α)) i)
-    (precOf p c (inQ p (.layer i))) (precOf p c (wQ p i)) _ _ hki hkw
-  simp only [layerCostOf, baseSpec, hardSampled, wShares, sampleHard, hq.1, hw.1, planOf, selOf,
-    Option.getD_some]
-  exact this
+            * ((planOf p c α (.layer i)).wS.getD default).bits) :=
+  paramsBit_on_exact (sharedIdxs p) p c α hl hn
 
-/-- … and the `ops_bit` cost is `Σ_layers MACs × selected weight bits × selected input bits`. -/
+/-- **Whole network, `ops_bit`** (a *non-shared* specification: one charge per fx call site, each
+with the output shape of its own node): `Σ_call sites MACs of the invocation × selected weight bits ×
+selected input bits`.  In particular a layer invoked at sites with output sizes `o_1 … o_k` is charged
+`Σ_i cost(o_i)`. -/
 theorem ops_bit_net_exact (p : Prog) (c : Cfg) (α : QId → List Rat)
     (hl : ∀ i ∈ layerIdxs p, LayerOK (p.nd i))
     (hn : ∀ q, (α q).length = (precOf p c q).length ∧ α q ≠ []) :
@@ -76,31 +66,36 @@ theorem ops_bit_net_exact (p : Prog) (c : Cfg) (α : QId → List Rat)
       = ratSum ((layerIdxs p).map fun i =>
           numWeights (p.nd i) (effIn p (outEffOf p c (hardSampled α)) i) * positions (p.nd i)
             * ((planOf p c α (.layer i)).wS.getD default).bits
-            * (planOf p c α (.layer i)).inS.bits) := by
-  unfold netCost
-  congr 1
-  apply List.map_congr_left
-  intro i hi
-  have hq := hn (inQ p (.layer i))
-  have hw := hn (wQ p i)
-  have hki : argmax (α (inQ p (.layer i))) < (precOf p c (inQ p (.layer i))).length := by
-    rw [← hq.1]; exact argmax_lt _ hq.2
-  have hkw : argmax (α (wQ p i)) < (precOf p c (wQ p i)).length := by
-    rw [← hw.1]; exact argmax_lt _ hw.2
-  have := ops_bit_exact (p.nd i) (hl i hi) (effIn p (outEffOf p c (hardSampled α)) i)
-    (precOf p c (inQ p (.layer i))) (precOf p c (wQ p i)) _ _ hki hkw
-  simp only [layerCostOf, baseSpec, hardSampled, wShares, sampleHard, hq.1, hw.1, planOf, selOf,
+            * (planOf p c α (.layer i)).inS.bits) :=
+  opsBit_on_exact (layerIdxs p) p c α hl hn
+
+/-- **A layer re-used at two resolutions** (two call sites `i`, `j` of one module: same geometry,
+same quantizer objects, same alive input width, different output shapes) is charged the sum over its
+invocations: `#weights × (positions_i + positions_j) × weight bits × input bits` — never one site's
+shape twice. -/
+theorem ops_bit_reuse_two_sites (p : Prog) (c : Cfg) (α : QId → List Rat) (i j : Nat)
+    (hi : LayerOK (p.nd i)) (hj : LayerOK (p.nd j))
+    (hn : ∀ q, (α q).length = (precOf p c q).length ∧ α q ≠ [])
+    (hgeo : ∀ e, numWeights (p.nd j) e = numWeights (p.nd i) e)
+    (hin : inQ p (.layer j) = inQ p (.layer i)) (hw : wQ p j = wQ p i)
+    (he : effIn p (outEffOf p c (hardSampled α)) j = effIn p (outEffOf p c (hardSampled α)) i) :
+    netCostOn [i, j] opsBit p c (hardSampled α)
+      = numWeights (p.nd i) (effIn p (outEffOf p c (hardSampled α)) i)
+          * (positions (p.nd i) + positions (p.nd j))
+          * ((planOf p c α (.layer i)).wS.getD default).bits * (planOf p c α (.layer i)).inS.bits := by
+  rw [opsBit_on_exact [i, j] p c α (by intro k hk; simp at hk; rcases hk with rfl | rfl <;> assumption) hn]
+  simp only [List.map_cons, List.map_nil, ratSum_cons, ratSum_nil, planOf, selOf, hin, hw, he, hgeo,
     Option.getD_some]
-  exact this
+  ring
 
 /-- **Per-layer search on a shape-consistent program**: nothing is pruned, so the calculators hand
 every layer its static `in_channels / in_features`: `#weights` above is the `numel` of the layer's
 weight tensor, and `params_bit = Σ_layers numel × selected weight bits`. -/
 theorem params_bit_net_exact_static (p : Prog) (c : Cfg) (α : QId → List Rat) (hwf : WF p) (ht : Typed p)
-    (hl : ∀ i ∈ layerIdxs p, i < p.length ∧ LayerOK (p.nd i))
+    (hl : ∀ i ∈ sharedIdxs p, i < p.length ∧ LayerOK (p.nd i))
     (hn : ∀ q, (α q).length = (precOf p c q).length ∧ α q ≠ []) :
-    netCost paramsBit p c (hardSampled α)
-      = ratSum ((layerIdxs p).map fun i =>
+    netCostShared paramsBit p c (hardSampled α)
+      = ratSum ((sharedIdxs p).map fun i =>
           numWeights (p.nd i) (p.nd i).cin * ((planOf p c α (.layer i)).wS.getD default).bits) := by
   rw [params_bit_net_exact p c α (fun i hi => (hl i hi).2) hn]
   congr 1
